@@ -65,12 +65,27 @@ def run(ctx):
             else:
                 lo = 1000.0 + rng.uniform(0, 5); hi = lo + rng.uniform(1, 50)
             box.append((lo, hi))
-        w.bounding_box = box[0] if n == 1 else tuple(box)
+        # the box is given as a tuple, as lists, as an array, or as a bounding-box object (in either storage order): always per input axis
+        form = rng.choice(["tuple", "tuple", "list", "array", "object-F", "object-C"])
+        if form == "tuple" or (n == 1 and form in ("list", "array")):
+            w.bounding_box = box[0] if n == 1 else tuple(box)
+        elif form == "list":
+            w.bounding_box = [list(b) for b in box]
+        elif form == "array":
+            w.bounding_box = np.array(box)
+        else:
+            from astropy.modeling.bounding_box import ModelBoundingBox
+            from astropy.modeling import models as _m
+            carrier = _m.Identity(n)
+            carrier.inputs = w.forward_transform.inputs
+            order = form[-1]
+            val = box[0] if n == 1 else (tuple(box) if order == "F" else tuple(box[::-1]))
+            w.bounding_box = ModelBoundingBox.validate(carrier, val, order=order)
         # reported back in the same (x, y, ...) order
         rep = w.bounding_box.bounding_box(order="F")
         rep = (rep,) if n == 1 else rep
         if [tuple(map(float, r)) for r in rep] != box or [tuple(map(float, r)) for r in w.pixel_bounds] != box:
-            problems.append((f"box {box} is reported back as {rep} / pixel_bounds {w.pixel_bounds}", {"box": box}))
+            problems.append((f"box {box} (given as {form}) is reported back as {rep} / pixel_bounds {w.pixel_bounds}", {"box": box, "given_as": form}))
         # wrong dimensionality is rejected and changes nothing
         bad = [(0.0, 1.0)] * (n + 1)
         try:
